@@ -94,6 +94,14 @@ Qed.
 
 End C05.
 
+(** exact arithmetic (reals): DDM's running error rate is the error frequency of the epoch.  In double
+    precision the recurrence deviates by rounding; the bit-exact float model is what the code is tied to. *)
+From MV Require Import NumLaws Ddm_Exact.
+From Coq Require Import Reals.
+Theorem C05_ddm_rate_exact_reals : forall (p : @ddm_params NumR) errs, errs <> [] ->
+  d_rate (ddm_feed p ddm_e0 0 errs) = (IZR (n_err errs) / IZR (Z.of_nat (length errs)))%R.
+Proof. exact ddm_rate_exact. Qed.
+
 Print Assumptions C05_ddm_rule.
 Print Assumptions C05_eddm_rule.
 Print Assumptions C05_stepd_rule.
@@ -101,3 +109,4 @@ Print Assumptions C05_stepd_window_invariant.
 Print Assumptions C05_ddm_recs.
 Print Assumptions C05_eddm_recs.
 Print Assumptions C05_stepd_recs.
+Print Assumptions C05_ddm_rate_exact_reals.
